@@ -48,12 +48,12 @@ TEMPLATE = {
     'rdplain': R + 'rd {N} label 100', 'vrdplain': 'vpls rd {N} endpoint 5 base 100 offset 1 size 8 next-hop 1.2.3.4',
     'frdplain': 'flow route {{ rd {N}; match {{ destination 10.0.0.0/24; }} then {{ discard; }} }}'.format(N='{N}'),
     'aggrplain': R + 'aggregator ( {N} )', 'rtplain': R + 'extended-community [ target:{N} ]', 'largetwo': R + 'large-community [ {N}:2 ]',
-    'nhnum': 'route 10.0.0.0/24 next-hop {N}',
+    'nhnum': 'route 10.0.0.0/24 next-hop {N}', 'sidplain': R + 'bgp-prefix-sid {N}', 'sidsrv6plain': R + 'bgp-prefix-sid-srv6 {N}',
 }
 BITS = {'b1': 8, 'b2': 16, 'b4': 32, 'bits20': 20, 'bits6': 6}
 
 
-LADDER = {'alen': {'max': 255, 'over': 256, 'neg': 4090, 'junk': 65535, 'huge': 65536}, 'ccount': {'max': 63, 'over': 64, 'neg': 1100, 'junk': 16383, 'huge': 16384}}
+LADDER = {'eclen': {'low': 8, 'max': 8, 'over': 9, 'huge': 70, 'neg': 7, 'junk': 1}, 'alen': {'max': 255, 'over': 256, 'neg': 4090, 'junk': 65535, 'huge': 65536}, 'ccount': {'max': 63, 'over': 64, 'neg': 1100, 'junk': 16383, 'huge': 16384}}
 
 
 def number(cap: str, low: int, val: str):
@@ -67,6 +67,8 @@ def text_of(u: dict, cap: str, low: int) -> str:
     n = number(cap, low, u['val'])
     if u['field'] == 'attrlen':
         return R + 'attribute [ 0xc8 0xc0 0x' + 'ab' * n + ' ]'
+    if u['field'] == 'echexlen':
+        return R + 'extended-community [ 0x' + (bytes([0, 2, 253, 232, 0, 0, 0, 1]) + bytes(range(2, 64)))[:n].hex() + ' ]'
     if u['field'] == 'commcount':
         return R + 'community [ ' + ' '.join(f'{1 + i // 60000}:{i % 60000}' for i in range(n)) + ' ]'
     tpl = TEMPLATE[u['field']]
@@ -176,7 +178,7 @@ def run(tier: str) -> int:
         'session negotiated through real OPENs; TLC (Judge_ExaText) checks accepted <=> the wire format holds the value, nothing raised, and that '
         'the bytes the RFC gives for the value appear in what was sent; distinct = distinct rows'
     )
-    ck.assumptions += ['one numeric position varied at a time around a valid definition; 62 positions (43 numbers, 10 octets of dotted addresses, 7 lone numbers where a pair or an address is expected, 2 length ladders); sessions: eBGP asn4+add-path, eBGP 2-byte peer, iBGP',
+    ck.assumptions += ['one numeric position varied at a time around a valid definition; 65 positions (43 numbers, 10 octets of dotted addresses, 9 lone numbers where a pair, a list or an address is expected, 3 length ladders); sessions: eBGP asn4+add-path, eBGP 2-byte peer, iBGP',
                        'a refusal must come from the parser (located syntax error / error reply), not from the last-resort handler which reports an unexpected exception ("Unexpected error: <Exception>" on the API, "problem parsing configuration file line 0" for a file)']
     res, states = tlc.dump_states('Gen_ExaText', '', 'c18gen', ['u', 'frags'], cfg_text='SPECIFICATION GenSpec\nINVARIANT TableOK\nCHECK_DEADLOCK FALSE\n', workers=8)
     ck.tlc(res, 'Gen_ExaText: rows and expected fragments; invariant TableOK')
